@@ -297,10 +297,117 @@ fn build_cred(rng: &mut Rng, p: &CredPlan) -> BuiltCred {
 // ---------------------------------------------------------------------------------------------
 // key binding
 // ---------------------------------------------------------------------------------------------
+/// One near-miss of the KB-JWT header `typ`: a value that is NOT exactly "kb+jwt" (and not the spelling the pinned dependency uses
+/// as its constant, which has its own, separately recorded signature). `class` names the kind of deviation and goes into the signature.
+#[derive(Clone, Debug, PartialEq)]
+struct TypCase {
+  class: &'static str,
+  base: u8,             // derived from: 0 "kb+jwt", 1 the library's constant (when it differs), 2 neither
+  value: Option<Value>, // None: the header has no typ at all
+}
+
+/// The family of near-miss typ values, as a function of the two base spellings only (the statement's "kb+jwt" and the constant the
+/// library compares with). Values equal to either base are left out: "kb+jwt" is the right type, the constant is the known finding.
+fn typ_family() -> Vec<TypCase> {
+  let spec = "kb+jwt";
+  let lib = KeyBindingJwtClaims::KB_JWT_HEADER_TYP;
+  let mut bases: Vec<(u8, String)> = vec![(0, spec.to_string())];
+  if lib != spec {
+    bases.push((1, lib.to_string()));
+  }
+  let mut out: Vec<TypCase> = Vec::new();
+  fn push(out: &mut Vec<TypCase>, spec: &str, lib: &str, class: &'static str, base: u8, v: Option<Value>) {
+    if let Some(Value::String(s)) = &v {
+      if s == spec || s == lib {
+        return;
+      }
+    }
+    if out.iter().any(|t| t.value == v) {
+      return;
+    }
+    out.push(TypCase { class, base, value: v });
+  }
+  for (bi, b) in &bases {
+    let bi = *bi;
+    let mut add = |class: &'static str, v: String| push(&mut out, spec, lib, class, bi, Some(Value::String(v)));
+    // media type prefixes (RFC 7515 4.1.9 lets a producer omit "application/"; the statement still demands kb+jwt)
+    add("with-application-prefix", format!("application/{}", b));
+    add("with-application-prefix", format!("Application/{}", b));
+    add("with-application-prefix", format!("APPLICATION/{}", b));
+    add("with-application-prefix", format!("application/application/{}", b));
+    add("with-application-prefix", format!("application/{}", b.trim_start()));
+    add("with-other-prefix", format!("/{}", b));
+    add("with-other-prefix", format!("text/{}", b));
+    add("with-other-prefix", format!("x{}", b));
+    add("with-other-prefix", format!("app/{}", b));
+    add("with-other-prefix", format!("jwt+{}", b));
+    // suffixes
+    add("with-suffix", format!("{}x", b));
+    add("with-suffix", format!("{}+jwt", b));
+    add("with-suffix", format!("{}/application", b));
+    add("with-suffix", format!("{}\u{0}", b));
+    add("with-suffix", format!("{}{}", b, b));
+    add("with-suffix", format!("{},{}", b, b));
+    // letter case
+    add("in-other-letter-case", b.to_uppercase());
+    add("in-other-letter-case", b.replacen("kb", "Kb", 1));
+    add("in-other-letter-case", b.replacen("kb", "KB", 1));
+    add("in-other-letter-case", b.replacen("jwt", "JWT", 1));
+    add("in-other-letter-case", b.replacen("jwt", "Jwt", 1));
+    // whitespace around and inside
+    add("with-surrounding-whitespace", format!(" {}", b));
+    add("with-surrounding-whitespace", format!("{} ", b));
+    add("with-surrounding-whitespace", format!(" {} ", b));
+    add("with-surrounding-whitespace", format!("\t{}", b));
+    add("with-surrounding-whitespace", format!("{}\n", b));
+    add("with-surrounding-whitespace", format!("\u{a0}{}", b));
+    add("with-surrounding-whitespace", b.trim().to_string() + "  ");
+    add("with-inner-whitespace", b.replacen('+', " +", 1));
+    add("with-inner-whitespace", b.replacen('+', "+ ", 1));
+    add("with-inner-whitespace", b.replacen('+', " ", 1)); // '+' read as an encoded blank
+    // media type parameters
+    add("with-media-type-parameter", format!("{};charset=utf-8", b));
+    add("with-media-type-parameter", format!("{}; charset=utf-8", b));
+    add("with-media-type-parameter", format!("{};", b));
+    add("with-media-type-parameter", format!("application/{};charset=utf-8", b));
+    add("with-media-type-parameter", format!("{};profile=kb", b));
+    // parts of the value
+    add("truncated", b[..b.len() - 1].to_string());
+    add("truncated", b.trim_start()[1..].to_string());
+    add("truncated", b.replacen("+jwt", "", 1));
+    add("truncated", b.replacen("+jwt", "+", 1));
+    add("truncated", b.replacen("kb+", "", 1)); // "jwt"
+    add("truncated", b.replacen("kb", "", 1)); // "+jwt"
+    add("truncated", b.trim_matches(|c: char| c != ' ').to_string()); // only the blanks of the base, if any
+    // other separators / encodings of the same letters
+    add("with-other-separator", b.replacen('+', "-", 1));
+    add("with-other-separator", b.replacen('+', "%2B", 1));
+    add("with-other-separator", b.replacen('+', "%2b", 1));
+    add("with-other-separator", b.replacen('+', "\u{ff0b}", 1)); // fullwidth plus
+    add("with-other-separator", b.replacen('+', "", 1));
+    add("with-other-separator", b.replacen('k', "\u{212a}", 1)); // Kelvin sign, lower-cases to 'k'
+  }
+  // values independent of the bases
+  for t in ["", "JWT", "jwt", "sd-jwt", "vc+sd-jwt", "application/jwt", "application/", "null", "*", "*/*"] {
+    push(&mut out, spec, lib, if t.is_empty() { "empty" } else { "of-other-type" }, 2, Some(json!(t)));
+  }
+  push(&mut out, spec, lib, "absent", 2, None);
+  for (bi, b) in &bases {
+    for v in [json!([b]), json!({ "typ": b }), json!([b, "JWT"])] {
+      push(&mut out, spec, lib, "not-a-string", *bi, Some(v));
+    }
+  }
+  for v in [Value::Null, json!(true), json!(0), json!([])] {
+    push(&mut out, spec, lib, "not-a-string", 2, Some(v));
+  }
+  out
+}
+
 #[derive(Clone, Debug)]
 struct KbPlan {
   present: bool,
-  typ: u8,                // 0 the library's constant, 1 "kb+jwt", 2 "JWT", 3 absent, 4 "KB+JWT"
+  typ: u8,                // 0 the library's constant, 1 "kb+jwt", 2 "JWT", 3 absent, 4 "KB+JWT", 5 the near-miss value in `typ_custom`
+  typ_custom: Option<TypCase>, // a header typ that is neither "kb+jwt" nor the library's constant (see `typ_family`)
   method: u8,             // 0 #k1, 1 #k2
   kid: u8,                // 0 full id, 1 missing method, 2 absent, 3 fragment only, 4 a method id under the signer's own (foreign) DID
   attach_jwk: bool,       // the signer's public key travels in the `jwk` header parameter (legal extra for the holder's own key, bait for a foreign one)
@@ -332,6 +439,7 @@ impl KbPlan {
     KbPlan {
       present: true,
       typ: 0,
+      typ_custom: None,
       method: rng.below(2) as u8,
       kid: 0,
       attach_jwk: rng.chance(1, 5),
@@ -573,6 +681,11 @@ fn build_kb(rng: &mut Rng, p: &KbPlan, issuer_jwt: &str) -> BuiltKb {
     4 => {
       h.insert("typ".into(), json!("KB+JWT"));
     }
+    5 => {
+      if let Some(v) = p.typ_custom.as_ref().and_then(|t| t.value.clone()) {
+        h.insert("typ".into(), v);
+      }
+    }
     _ => {}
   }
   let frag = if p.method == 0 { "k1" } else { "k2" };
@@ -798,7 +911,16 @@ impl Cx {
     let (sd, o, claims) = (b.sd, b.options, b.claims);
     let case = json!({"plan": format!("{:?}", p), "kb_jwt": sd.key_binding_jwt, "disclosures": sd.disclosures, "falsified": falsified,
       "options": serde_json::to_value(&o).unwrap_or(Value::Null)});
-    self.rep.distinct("nontrivial", &format!("kb|{}|typ{}|m{}|kid{}|ovr{}|sc{}|w{}:{}|n{}|alt{}|nc{}:{}|ac{}:{}", falsified.join("+"), p.typ, p.method, p.kid, p.method_id_override, p.scope, p.window, p.iat_pos, p.n_disclosures,
+    let typ_label = match (&p.typ_custom, p.typ) {
+      (Some(t), 5) => format!("5:{}:{}", t.class, t.base),
+      _ => p.typ.to_string(),
+    };
+    if let (Some(t), 5) = (&p.typ_custom, p.typ) {
+      self.rep.inc("kb_typ_near_miss_cases");
+      self.rep.distinct("typ_near_miss_classes", t.class);
+      self.rep.distinct("typ_near_miss_values", &t.value.as_ref().map(|v| v.to_string()).unwrap_or_else(|| "absent".into()));
+    }
+    self.rep.distinct("nontrivial", &format!("kb|{}|typ{}|m{}|kid{}|ovr{}|sc{}|w{}:{}|n{}|alt{}|nc{}:{}|ac{}:{}", falsified.join("+"), typ_label, p.method, p.kid, p.method_id_override, p.scope, p.window, p.iat_pos, p.n_disclosures,
       p.alter, p.nonce_claim, p.nonce_opt, p.aud_claim, p.aud_opt));
     self.rep.distinct("condition_vectors", &format!("kb|{}", falsified.join("+")));
     let validator = SdJwtCredentialValidator::with_signature_verifier(EdDSAJwsVerifier::default(), SdObjectDecoder::new_with_sha256());
@@ -817,7 +939,19 @@ impl Cx {
       Ok(Ok(c)) => {
         self.rep.inc("kb_accepted");
         if !falsified.is_empty() {
-          self.rep.violation(&format!("kb-jwt-accepted-although-false:{}", falsified[0]), &format!("KB-JWT accepted although {:?} do not hold", falsified), case.clone());
+          match (&p.typ_custom, p.typ, falsified[0]) {
+            // a near-miss of the type: the signature names the class of deviation (never the signature of the known constant)
+            (Some(t), 5, "typ") => self.rep.violation(
+              &format!("kb-jwt-accepted:typ-{}", t.class),
+              &format!(
+                "a KB-JWT whose header typ is {} (not exactly \"kb+jwt\") is accepted{}",
+                t.value.as_ref().map(|v| v.to_string()).unwrap_or_else(|| "absent".into()),
+                if falsified.len() > 1 { format!(" (also false: {:?})", &falsified[1..]) } else { String::new() }
+              ),
+              case.clone(),
+            ),
+            _ => self.rep.violation(&format!("kb-jwt-accepted-although-false:{}", falsified[0]), &format!("KB-JWT accepted although {:?} do not hold", falsified), case.clone()),
+          }
           return;
         }
         // the statement says "typed kb+jwt": the exact spelling is judged by the dedicated probe below
@@ -852,6 +986,9 @@ impl Cx {
           for f in &falsified {
             self.rep.inc(&format!("kb_rejected:{}", f));
           }
+          if p.typ == 5 && falsified == ["typ"] {
+            self.rep.inc("kb_typ_near_miss_alone_rejected");
+          }
           if (falsified.contains(&"nonce") && o.nonce.as_deref() == Some("")) || (falsified.contains(&"aud") && o.aud.as_deref() == Some("")) {
             self.rep.inc("kb_rejected:empty-expectation-not-met");
           }
@@ -882,7 +1019,15 @@ fn mutate_cred(rng: &mut Rng, p: &mut CredPlan, w: u64) {
 fn mutate_kb(rng: &mut Rng, p: &mut KbPlan, w: u64) {
   match w {
     0 => p.present = false,
-    1 => p.typ = 2 + rng.below(3) as u8,
+    1 => {
+      if rng.bool() {
+        p.typ = 2 + rng.below(3) as u8;
+      } else {
+        let fam = typ_family();
+        p.typ = 5;
+        p.typ_custom = Some(fam[rng.usize(fam.len())].clone());
+      }
+    }
     2 => p.kid = 1 + rng.below(4) as u8,
     3 => p.method_id_override = 2,
     4 => p.scope = 1 + rng.below(3) as u8,
@@ -953,7 +1098,10 @@ fn mutate_kb(rng: &mut Rng, p: &mut KbPlan, w: u64) {
       p.kid = *rng.pick(&[1u8, 2, 4]);
       p.method_id_override = 0;
     }
-    11 => p.typ = 1, // the spec spelling (legal)
+    11 => {
+      p.typ = 1; // the spec spelling (legal)
+      p.typ_custom = None;
+    }
     _ => {
       p.window = 1;
       p.iat_pos = *rng.pick(&[1u8, 3]); // inclusive window edges (legal)
@@ -972,7 +1120,10 @@ fn main() {
   cx.rep.rule(
     "SD-JWT credentials assembled by the harness (0-4 concealed subject claims + nested concealed claim, own SHA-256 digests, decoys, every \
      disclosed subset, forged / foreign / duplicated / garbage / reordered disclosures, _sd_alg forms) x issuer-side conditions (signature, \
-     kid, issuer, nonce, dates, structure); KB-JWTs with each bound field right/wrong (typ, kid/method-id, scope, signature by other key, \
+     kid, issuer, nonce, dates, structure); KB-JWTs with each bound field right/wrong (typ: the library's constant, kb+jwt, absent, and a \
+     family of near-misses derived from both spellings - application/ and other prefixes, suffixes, letter case, surrounding / inner \
+     whitespace, media type parameters, truncations, other separators, other types, empty, non-string values - each also alone on an \
+     otherwise fully bound KB-JWT; any accepted typ other than exactly kb+jwt is a violation named after its class; kid/method-id, scope, signature by other key, \
      sd_hash over other concatenations, the presented disclosure list altered after the holder signed (empty / whitespace-only elements \
      spliced in, dropped, appended, duplicated, swapped, padded; judged by the harness's own digest over the presented text; directly and \
      through the wire text), nonce and aud signed as ordinary / empty / blank values against absent, equal, other, empty, blank and near-miss \
@@ -1010,6 +1161,33 @@ fn main() {
             }
             sweep.push(k);
           }
+        }
+      }
+    }
+    // Every near-miss of the header typ (see `typ_family`) on an otherwise fully bound KB-JWT, directly and through the wire text. At a
+    // reduced scale one value per (class of deviation, base spelling), alternating between the two ways of presenting.
+    {
+      let fam = typ_family();
+      let mut seen: Vec<(&'static str, u8)> = Vec::new();
+      let mut j = 0usize;
+      for t in &fam {
+        let first_of_class = !seen.contains(&(t.class, t.base));
+        if first_of_class {
+          seen.push((t.class, t.base));
+        }
+        if scale < 1000 && !first_of_class {
+          continue;
+        }
+        j += 1;
+        for via_wire in [false, true] {
+          if scale < 1000 && via_wire != (j % 2 == 0) {
+            continue;
+          }
+          let mut k = KbPlan::good(&mut base_rng);
+          k.typ = 5;
+          k.typ_custom = Some(t.clone());
+          k.via_wire = via_wire;
+          sweep.push(k);
         }
       }
     }
